@@ -95,11 +95,17 @@ func genVCs(w *World, db *ContractDB, ct *Contract) (res *FnResult) {
 	f := &frame{e: e, fn: fn, vals: map[ssa.Value]T{}, addrs: map[ssa.Value]Addr{}, tuples: map[ssa.Value][]T{},
 		ct: ct, nopanic: ct.NoPanic, tags: ct.NoPanicTags, pinv: map[*ssa.BasicBlock]*pendInv{}, assertHit: map[*SpecExpr]bool{}}
 	f.root = f
+	e.ownMaps = map[string]bool{}
+	e.ownMapList = f.ownMapHeaps()
+	for _, n := range e.ownMapList {
+		e.ownMaps[n] = true
+	}
 	st := &State{cond: "true", heap: map[string]int{}}
 	e.assume("(>= " + e.H(st, "W", "Int") + " 0)")
 	for _, sc := range sameCallees(fn) {
 		e.setHeap(st, "CALLED_"+sc, "Bool", "false")
 		e.setHeap(st, "COUNT_"+sc, "Int", "0")
+		e.setHeap(st, "ARGS_"+sc, "(Array Int Bool)", "((as const (Array Int Bool)) false)")
 	}
 	e.H(st, "EXCL", "(Array Int Bool)")
 	for _, p := range fn.Params {
@@ -346,6 +352,7 @@ func (f *frame) frameObligations(ct *Contract, entry *State) {
 	}
 	sort.Strings(names)
 	w0 := e.H(entry, "W", "Int")
+	ownMaps := e.ownMaps
 	for _, r := range f.rets {
 		badClass := map[int]bool{}
 		for c := 0; c < 2; c++ {
@@ -364,10 +371,17 @@ func (f *frame) frameObligations(ct *Contract, entry *State) {
 			}
 		}
 		for _, n := range names {
-			if n == "W" || n == "EXCL" || strings.HasPrefix(n, "LAST_") || strings.HasPrefix(n, "CALLED_") || strings.HasPrefix(n, "COUNT_") || strings.HasPrefix(n, "VIS_") || strings.HasPrefix(n, "LASTB_") {
+			if n == "W" || n == "EXCL" || strings.HasPrefix(n, "LAST_") || strings.HasPrefix(n, "CALLED_") || strings.HasPrefix(n, "COUNT_") || strings.HasPrefix(n, "ARGS_") || strings.HasPrefix(n, "VIS_") || strings.HasPrefix(n, "LASTB_") {
 				continue
 			}
 			v0, v1 := e.ver(entry, n), e.ver(r.st, n)
+			if ct.KeepOwnMaps && v0 != v1 && ownMaps[n] {
+				// "keeps ownmaps": the package's own map types keep their contents (on objects that existed at entry)
+				h0, h1 := e.H(entry, n, e.heapSort[n]), e.H(r.st, n, e.heapSort[n])
+				e.declFun("owner", []string{"Int"}, "Int")
+				e.addOb("frame", "keeps-ownmaps:"+n, nil, ct.Src, r.cond, "(= "+h1+" "+h0+")")
+				continue
+			}
 			if v0 == v1 || e.modAllows(ct, n) || badClass[e.class(n)] {
 				continue
 			}
